@@ -14,7 +14,8 @@ RULE = (
     "complete product of dimension x class x ordered operand pairs over the declared position/radius/width alphabets "
     "(pairs with zero total volume excluded: outside the statement) x code paths {merge, merge(inplace), Class._merge_data on "
     "np.record, numba-jitted wrapper of _make_merge_data()}; plus all full binary bracketings over all orderings of 3 (quick) / 4 "
-    "(thorough) droplets; a case is non-trivial when both radii are positive and positions differ"
+    "(thorough) droplets; a case is non-trivial when both radii are positive and positions differ; all histories of <= 3 merges inside a 4-member emulsion "
+    "(in place on members, through rows of the linked data array, by replacing members; reversal) with volume / centre-of-mass conservation after every step"
 )
 ASSUMPTIONS = [
     "alphabet values only; the algebraic identity for all positive reals is not decided symbolically",
@@ -80,11 +81,25 @@ def blocks(tier, seed):
         n = 4 if (tier == "thorough" or d == 1) else 3
         for cname in ("SphericalDroplet", "DiffuseDroplet"):
             out.append({"kind": "group", "dim": d, "cls": cname, "n": n, "phase": seed % 4})
+    # histories of merges inside an emulsion (member-wise in place, through the rows of the linked data array, by replacing members)
+    for d in (1, 2):
+        for cname in ("SphericalDroplet", "DiffuseDroplet"):
+            for first in range(len(EM_OPS)):
+                out.append({"kind": "emulsion-history", "dim": d, "cls": cname, "first": first, "depth": 3, "phase": seed % 4})
     return out
+
+
+EM_PAIRS = [(0, 1), (2, 3), (1, 2), (3, 0)]
+EM_OPS = [("rows", i, j) for i, j in EM_PAIRS] + [("members", i, j) for i, j in EM_PAIRS] + [("replace", i, j) for i, j in EM_PAIRS] + [("reverse",)]
 
 
 def cases(block):
     d, cname = block["dim"], block["cls"]
+    if block["kind"] == "emulsion-history":
+        for n in range(1, block["depth"] + 1):
+            for rest in itertools.product(range(len(EM_OPS)), repeat=n - 1):
+                yield {"kind": "emulsion-history", "dim": d, "cls": cname, "ops": [block["first"]] + list(rest), "phase": block["phase"]}
+        return
     P = positions(d, block["phase"])
     if block["kind"] == "pair":
         widths = WIDTHS if cname == "DiffuseDroplet" else [None]
@@ -144,9 +159,71 @@ def fold(tree, leaves):
     return a.merge(b)
 
 
+def run_emulsion_history(case, ctx):
+    """merges inside an emulsion: after every operation the emulsion's total volume and centre of mass are those of the start and
+    every member equals the list model (volume sum, volume-weighted position, mean width; a merged-away member is vanished)"""
+    from droplets import DiffuseDroplet, Emulsion, SphericalDroplet
+
+    d, cname = case["dim"], case["cls"]
+    cls = {"SphericalDroplet": SphericalDroplet, "DiffuseDroplet": DiffuseDroplet}[cname]
+    P = positions(d, case["phase"])
+    start = [(list(P[i % len(P)]) if i < len(P) else [0.25 + i] * d, r, w) for i, (r, w) in enumerate(((0.5, 0.3), (1.0, 1.2), (2.5, 0.3), (0.75, 0.6)))]
+    em = Emulsion([make(cname, p, r, w) for p, r, w in start])
+    model = [[np.array(p, float), vol(r, d), w] for p, r, w in start]  # position, volume, width
+    tags = {"history": "emulsion", "cls": cname, "dim": d}
+    V0 = sum(m[1] for m in model)
+    com0 = sum(m[0] * m[1] for m in model) / V0
+
+    def mmerge(a, b):
+        V = a[1] + b[1]
+        return [(a[0] * a[1] + b[0] * b[1]) / V, V, (a[2] + b[2]) / 2]
+
+    for k, oi in enumerate(case["ops"]):
+        op = EM_OPS[oi]
+        if op[0] == "reverse":
+            em.reverse()
+            model.reverse()
+        else:
+            _, i, j = op
+            if model[i][1] + model[j][1] == 0:
+                ctx.skip("both-operands-vanished")
+                return
+            try:
+                if op[0] == "rows":
+                    data = em.get_linked_data()  # (fresh array: membership may have changed since the last one)
+                    cls._merge_data(data[i], data[j], out=data[i])
+                    data[j].fill(0)
+                elif op[0] == "members":
+                    em[i].merge(em[j], inplace=True)
+                    em[j].data.fill(0)
+                else:
+                    em[i] = em[i].merge(em[j])
+                    gone = em[j].copy()
+                    gone.data.fill(0)
+                    em[j] = gone
+                ctx.op()
+            except Exception as e:  # noqa
+                ctx.check("C11.no-raise", False, {"ops": [EM_OPS[o] for o in case["ops"][: k + 1]], "exc": repr(e)[:300]}, tags)
+                return
+            model[i] = mmerge(model[i], model[j])
+            model[j] = [np.zeros(d), 0.0, 0.0]
+        det = {"ops": [EM_OPS[o] for o in case["ops"][: k + 1]], "members": [[list(map(float, x.position)), float(x.radius)] for x in em], "model_volumes": [m[1] for m in model]}
+        vols = np.array([float(x.volume) for x in em])
+        ctx.check("C11.emulsion-volume", abs(vols.sum() - V0) <= 1e-12 * V0, dict(det, total=float(vols.sum()), want=V0), tags)
+        com = sum(np.asarray(x.position, float) * v for x, v in zip(em, vols)) / vols.sum()
+        ctx.check("C11.emulsion-com", bool(np.all(np.abs(com - com0) <= 1e-12 * max(1.0, float(np.max(np.abs(com0)))))), dict(det, com=com, want=com0), tags)
+        ok = all(abs(v - m[1]) <= 1e-12 * max(m[1], 1e-300) and (m[1] == 0 or np.all(np.abs(np.asarray(x.position) - m[0]) <= 1e-12 * max(1.0, float(np.max(np.abs(m[0])))))) for x, v, m in zip(em, vols, model))
+        if cname == "DiffuseDroplet":
+            ok = ok and all(m[1] == 0 or abs(float(x.interface_width) - m[2]) <= 1e-12 for x, m in zip(em, model))
+        ctx.check("C11.emulsion-members", bool(ok), det, tags)
+    ctx.count("emulsion-merge-histories")
+
+
 def run_case(case, ctx):
     from droplets import DiffuseDroplet, SphericalDroplet
 
+    if case["kind"] == "emulsion-history":
+        return run_emulsion_history(case, ctx)
     d, cname = case["dim"], case["cls"]
     cls = {"SphericalDroplet": SphericalDroplet, "DiffuseDroplet": DiffuseDroplet}[cname]
     if case["kind"] == "pair":
@@ -256,4 +333,4 @@ def run_case(case, ctx):
 
 def expected_positive(tier):
     return ["C11.volume", "C11.com", "C11.width-mean", "C11.commutes", "C11.paths-agree", "C11.grouping", "C11.operands-unmodified", "C11.result-independent",
-            "both-positive-distinct", "zero-radius-operand"]
+            "both-positive-distinct", "zero-radius-operand", "C11.emulsion-volume", "C11.emulsion-com", "C11.emulsion-members", "emulsion-merge-histories"]
